@@ -14,19 +14,22 @@
         struct fs                    fields in schema order; each field carries its `Presence`
                                      (`req` = not optional, `present` / `absent` = optional field's
                                      presence bit) AND its stored value: an absent optional field still
-                                     holds whatever was stored before (Cmp<Struct> looks at it!)
+                                     holds whatever was stored before (hidden state: Clone and
+                                     CopyFrom carry it along or not, the dump of the harness shows
+                                     it; since /repo 82431a4 neither Cmp nor IsEqual reads it)
         none / choice k v            a oneof with typ = None / typ = k+1 holding v (other alternatives
                                      are hidden state that neither Cmp nor IsEqual reads)
         arr es                       array
         mmap ps                      multimap: ordered key/value pairs
   * `cmp`               Cmp<Type>: struct = fields in order, optional: presence first (present > absent)
-                        then THE STORED VALUES EVEN WHEN BOTH ARE ABSENT; oneof = typ by
+                        then the values when the field is present (`skipAbsent`; until /repo
+                        82431a4 the stored values were compared even when both were absent); oneof = typ by
                         pkg.Uint64Compare, then the chosen alternative; array = len(left)-len(right)
                         then elements; multimap = keys over the common prefix, then
                         len(left)-len(right), then values; dict struct = nil first.
                         The result is an `Int` exactly as Go returns it (length differences are not
                         normalised to -1/1).
-  * `isEqual`           IsEqual: like cmp but absent optional fields are NOT compared.
+  * `isEqual`           IsEqual: absent optional fields are not compared either.
   * `copyNew`, `clone`, `copyFrom`   copyToNew<T>, <T>.Clone, copy<T> (= CopyFrom): see each definition.
 
   Values of one Go type always have the same constructor, field count and presence kinds. The
@@ -119,6 +122,14 @@ def Presence.rank : Presence → Int
 /-- `if leftPresent != rightPresent { if leftPresent { return 1 }; return -1 }` -/
 def presCmp (p q : Presence) : Int := p.rank - q.rank
 
+/-- `if left<Name>Present { if c := Cmp(...); c != 0 { return c } }` (struct.go.tmpl since /repo
+    82431a4): reached with equal presence only; `p` is the left presence, `c` the comparison of the
+    stored values. A required field is always compared. -/
+@[inline] def skipAbsent (p : Presence) (c : Int) : Int :=
+  match p with
+  | .absent => 0
+  | _ => c
+
 mutual
 inductive Value (α : Type) : Type where
   | leaf (a : α)
@@ -188,7 +199,8 @@ def cmpFields (o : LeafOps α) : Fields α → Fields α → Int
   | .nil, .nil => 0
   | .nil, .cons _ _ _ => -1
   | .cons _ _ _, .nil => 1
-  | .cons p a as, .cons q b bs => lex (presCmp p q) (lex (cmp o a b) (cmpFields o as bs))
+  | .cons p a as, .cons q b bs =>
+    lex (presCmp p q) (lex (skipAbsent p (cmp o a b)) (cmpFields o as bs))
 def cmpValues (o : LeafOps α) : Values α → Values α → Int
   | .nil, .nil => 0
   | .nil, .cons _ _ => -1
@@ -307,16 +319,20 @@ end
 
 /-! ### <T>.Clone -/
 
-/-- Clone of a struct: primitive fields are copied verbatim by the composite literal, composite
-    fields by copyToNew, and `optionalFieldsPresent` is NOT copied: every optional field of the
-    clone is absent (defect `clone-loses-optional-presence`). By-pointer dictionary-struct fields
-    (`cloneShared`: shared when frozen, else cloned) are modelled by copyNew. -/
+/-- Clone of a struct (struct.go.tmpl since /repo 82431a4): the composite literal copies every
+    primitive field verbatim - the stored value of an absent optional one included - and
+    `optionalFieldsPresent`, so every field keeps its presence; composite fields stored by value are
+    copied by copyToNew whether present or not; a by-pointer field is `cloneShared` (shared when
+    frozen, else cloned), an OPTIONAL by-pointer field only when the pointer is not nil (a nil stays
+    nil: `null`, and copyNew null = null). cloneShared is modelled by copyNew: the value tree does not
+    tell a by-pointer struct from a by-value one, and the two differ only in the stored value of an
+    absent optional primitive inside the pointee (Clone keeps it, copyToNew leaves the zero), which
+    is not data and which no type of go/otel has. (Until 82431a4 the presence bits were not copied:
+    every optional field of a clone was absent.) -/
 def cloneFields (o : LeafOps α) : Fields α → Fields α
   | .nil => .nil
-  | .cons p (.leaf a) rest =>
-    .cons (match p with | .req => .req | _ => .absent) (.leaf a) (cloneFields o rest)
-  | .cons p v rest =>
-    .cons (match p with | .req => .req | _ => .absent) (copyNew o v) (cloneFields o rest)
+  | .cons p (.leaf a) rest => .cons p (.leaf a) (cloneFields o rest)
+  | .cons p v rest => .cons p (copyNew o v) (cloneFields o rest)
 
 /-- <T>.Clone (structs and oneofs have it; arrays/multimaps are cloned by copyToNew) -/
 def clone (o : LeafOps α) : Value α → Value α
